@@ -266,6 +266,9 @@ pub mod verif_valgate {
     #[inline(always)] pub fn gate_val(k: u32) { if unsafe { ALLOWED_VALS } & (1 << k) == 0 { panic!("value kind outside the set declared by the harness") } }
     #[inline(always)] pub fn gate_val_of<T: ValKind>(_: &T) { gate_val(T::K) }
     pub const V_STRING: u32 = 5;
+    /// a function value whose body is native code (Body::Native): the call goes through a function pointer
+    /// stored in a heap object, which CBMC explores for every native of the crate unless it is declared absent
+    pub const V_NATIVE: u32 = 6;
     #[inline(always)] pub fn gate_eq(v: &Variable) {
         match v {
             Variable::Function(_) => gate_val(V_FUNCTION),
@@ -297,6 +300,13 @@ pub mod verif_valgate {
 }
 '''
     f.write_text(s)
+    # `Function::exec`: the native arm (call through a stored function pointer) is gated like a value kind
+    g = root / 'src/function.rs'
+    if g.exists():
+        t = g.read_text()
+        oldn = '            Body::Native(body) => return (body)(interpreter),\n'
+        if oldn in t:
+            g.write_text(t.replace(oldn, '            Body::Native(body) => { #[cfg(kani)] crate::variable::verif_valgate::gate_val(crate::variable::verif_valgate::V_NATIVE); return (body)(interpreter) }\n', 1))
     # optional stub of the element-type computation of `Array::from` (a fold of Type::concat over
     # as_type of every element): only harnesses that say so (C09 slicing, whose subject is which
     # elements are selected) switch it on; the stored element type then is `any`.
@@ -315,8 +325,40 @@ pub mod verif_valgate {
             g.write_text(t.replace(old, old + '        #[cfg(kani)]\n        crate::variable::verif_valgate::gate_val(crate::variable::verif_valgate::V_ARRAY);\n', 1))
     return n
 
+
+def apply_seq_model(root: pathlib.Path):
+    """`Interpreter::exec` and `recreate_instructions` evaluate a slice of instructions with
+    `iter().map(..).collect::<Result<Arc<[_]>, _>>()`.  CBMC does not get through that adaptor chain
+    (GenericShunt + Vec::from_iter + realloc over a heap slice: > 600 s for two statements).  In the
+    scratch copy, and only if the function body is textually the pinned one, it is replaced under
+    cfg(kani) by the plain loop it abbreviates: evaluate left to right, stop at the first Err.
+    A tree in which these functions were changed keeps its own code (and is judged on it, slowly)."""
+    done = []
+    f = root / 'src/interpreter.rs'
+    if f.exists():
+        s = f.read_text()
+        old = ('        instructions\n            .iter()\n            .map(|instruction| instruction.exec(self))\n            .collect()\n')
+        new = ('        if cfg!(kani) {\n            let mut out = Vec::with_capacity(4);\n            let mut i = 0;\n'
+               '            while i < instructions.len() {\n                out.push(instructions[i].exec(self)?);\n                i += 1;\n            }\n'
+               '            return Ok(Arc::from(out));\n        }\n' + old)
+        if s.count(old) == 1:
+            f.write_text(s.replace(old, new))
+            done.append('Interpreter::exec')
+    f = root / 'src/instruction.rs'
+    if f.exists():
+        s = f.read_text()
+        old = ('    instructions\n        .iter()\n        .map(|iws| iws.recreate(local_variables))\n        .collect()\n')
+        new = ('    if cfg!(kani) {\n        let mut out = Vec::with_capacity(4);\n        let mut i = 0;\n'
+               '        while i < instructions.len() {\n            out.push(instructions[i].recreate(local_variables)?);\n            i += 1;\n        }\n'
+               '        return Ok(Arc::from(out));\n    }\n' + old)
+        if s.count(old) == 1:
+            f.write_text(s.replace(old, new))
+            done.append('recreate_instructions')
+    return done
+
 def apply_layout(root: pathlib.Path):
     open_fields(root)
+    apply_seq_model(root)
     apply_gating(root)
     apply_value_gating(root)
     done = []
